@@ -42,8 +42,14 @@ func TestC02(t *testing.T) {
 			t.Fatalf("derived frame differs from model: %s\n%s", diff, d.String())
 		}
 		in := d.Exp
-		clause := hx.GenClause(t, in, 3, hx.ClauseOpt{})
-		desc := func() string { return d.String() + "clause " + clause.String() }
+		// now and then the frame has an earlier life that touched its data columns (what it holds then is observed)
+		var hist hx.History
+		if steps > 1 && rapid.IntRange(0, 3).Draw(t, "history") == 0 {
+			d.QF, in, hist = hx.GenHistory(t, d.QF, in, true)
+			d.Route = append(d.Route, hist.String())
+		}
+		clause := hx.GenClause(t, in, 3, hx.ClauseOpt{Focus: hist.Focus})
+		desc := func() string { return d.String() + "input " + in.String() + "clause " + clause.String() }
 
 		var res = d.QF
 		realClause := clause.Build(hx.KindMap(in))
